@@ -60,7 +60,8 @@ async def aiter_of(xs):
 def A(f):
     async def g(*a): return f(*a)
     return g
-seqs=[list(s) for n in range(0,5) for s in P([0,1,2], repeat=n)]
+MAXLEN = 6 if os.environ.get("SEGVC_TIER") == "thorough" else 5  # thorough tier: one element longer (about 3 times the cases)
+seqs=[list(s) for n in range(0,MAXLEN+1) for s in P([0,1,2], repeat=n)]
 ints=[None,-2,-1,0,1,2,3,5]
 dis=[]
 def cmp(name, mk_any, mk_std, args):
